@@ -196,6 +196,21 @@ pub enum Fill {
     DigestLike,
     /// 0xff bytes (never valid UTF-8)
     Ones,
+    /// the text `cvh-mined-<salt>` (the length is that of the text): values found by search,
+    /// whose digest under some algorithm starts with three zero bytes — `AAAA` in base64,
+    /// `000000` in hex — see `MINED`
+    Mined,
+}
+
+/// (salt, algorithm) of values `cvh-mined-<salt>` whose digest under that algorithm starts with
+/// three zero bytes (found offline by brute force, 2^24 tries each).
+pub const MINED: &[(u64, Algo)] = &[(43444413, Algo::Sha256), (6401090, Algo::Sha1), (9582249, Algo::Sha512)];
+
+impl Blob {
+    pub fn mined(i: usize) -> (Blob, Algo) {
+        let (salt, algo) = MINED[i % MINED.len()];
+        (Blob { len: format!("cvh-mined-{salt}").len(), salt, fill: Fill::Mined }, algo)
+    }
 }
 
 /// A described (not stored) byte string: cheap to shrink and to serialise.
@@ -254,6 +269,10 @@ impl Blob {
                 for i in 0..self.len {
                     v.push(pat[(i + self.salt as usize) % pat.len()]);
                 }
+            }
+            Fill::Mined => {
+                v = format!("cvh-mined-{}", self.salt).into_bytes();
+                v.resize(self.len, b'.');
             }
             Fill::Ones => {
                 v.resize(self.len, 0xff);
